@@ -202,6 +202,8 @@ func (d *drv) take(st stats.Stat) {
 // stat is completely processed), or until the output channel is closed (a goroutine died: shutdown()).
 func (d *drv) waitArrival() (r chan int64, closed bool, infra string) {
 	to := time.After(stepTimeout)
+	idle := time.NewTimer(swallowWait)
+	defer idle.Stop()
 	for {
 		select {
 		case r = <-d.arrive:
@@ -212,11 +214,24 @@ func (d *drv) waitArrival() (r chan int64, closed bool, infra string) {
 				return nil, true, ""
 			}
 			d.take(st)
+		case <-idle.C:
+			// every stat of the case and the sentinel were queued before the aggregator started.  If the
+			// worker has taken ALL of them off its input and still does not come to the clock, it has taken
+			// more stats than it made clock readings: some stat was discarded before its lateness test.
+			if len(d.in) == 0 {
+				return nil, false, swallowed
+			}
+			idle.Reset(swallowWait)
 		case <-to:
 			return nil, false, "timeout waiting for the ingest worker"
 		}
 	}
 }
+
+// swallowWait: how long the ingest worker may stay away from the clock with an empty input before the case
+// is judged; swallowed: the verdict (handled as a C19 violation of its own, not as a harness failure)
+const swallowWait = 1500 * time.Millisecond
+const swallowed = "the ingest worker took every queued stat off its input but read the clock fewer times than that"
 
 func (d *drv) drain() []ostat {
 	for !d.closed {
@@ -367,7 +382,7 @@ func runImpl(c acase) (res result) {
 		}
 	}
 	// sentinel: only ever parks in the clock; its arrival proves that the last real stat is done
-	d.in <- stats.Stat{Component: "verif-sentinel", StatType: stats.Count, StatName: "sentinel", Unit: "count"}
+	d.in <- stats.Stat{Component: "verif-sentinel", StatType: stats.Count, StatName: "sentinel", Unit: "count", Value: 1}
 	clk := c.T0
 	d.repClk.Store(clk)
 	sh := shutdown.NewShutdownHandler()
@@ -1042,15 +1057,31 @@ func init() {
 		var sb strings.Builder
 		sb.WriteString("From Bifrost.model Require Import Base Aggregator.\nOpen Scope string_scope.\nDefinition cases : list acase := [\n")
 		seen := map[string]bool{}
+		nSwallowed, nEmitted := 0, 0
 		for i, c := range cases {
 			res := results[i]
+			if res.infra == swallowed {
+				nfed := 0
+				for _, st := range c.Steps {
+					if st.S != nil && (st.Op == "F" || st.Op == "R") {
+						nfed++
+					}
+				}
+				core.Bump(rep, "stat-discarded-before-the-lateness-test")
+				if nSwallowed++; nSwallowed <= 3 {
+					rep.Violations = append(rep.Violations, core.Violation{Property: "C19", Signature: "stat-discarded-without-a-clock-reading", Case: c,
+						What: fmt.Sprintf("%d statistics (and the harness's sentinel) were queued; the ingest worker took all of them off its input but came to the clock only %d times: at least one recorded value was discarded before its lateness test, so it is in no window's report and was not dropped for being late", nfed, len(res.arrivals))})
+				}
+				continue
+			}
 			if res.infra != "" {
 				fmt.Fprintf(os.Stderr, "AGG harness failure on case %d: %s\n", i, res.infra)
 				os.Exit(2)
 			}
-			if i > 0 {
+			if nEmitted > 0 {
 				sb.WriteString(";\n")
 			}
+			nEmitted++
 			sb.WriteString(caseGallina(c, res))
 			rep.CaseIndex = append(rep.CaseIndex, core.RawJSON(c))
 			rep.Evaluations++
